@@ -24,6 +24,8 @@ use std::fs;
 use std::panic::{catch_unwind, AssertUnwindSafe};
 use std::path::{Path, PathBuf};
 
+mod real;
+
 // ------------------------------------------------------------------------------------------------
 // artifacts
 
@@ -411,6 +413,7 @@ fn run(f: &[&str]) -> String {
         ("fs.plan", 3) => run_plan(f),
         ("fs.apply", 6) => run_apply(f),
         ("fs.session", n) if n >= 2 => run_session(f),
+        ("fs.real", n) if n >= 2 => real::run_real(f),
         _ => None,
     }));
     match r {
@@ -862,6 +865,9 @@ fn gen(r: &mut Rng, i: u64) -> Vec<String> {
             _ => gen_session_faults(r),
         },
         "c17" => gen_session_plain(r, true),
+        "real18" => real::gen_real(r, "c18"),
+        "real19" => real::gen_real(r, "c19"),
+        "real17" => real::gen_real(r, "c17"),
         _ => vec![],
     }
 }
